@@ -346,6 +346,25 @@ def discharge(prog, body, kind, bi, t, bounds):
                 return 'fallback arm of a match on a value in [%d,%d], every one of which has its own arm' % r
     if kind in ('call:Index::index', 'call:IndexMut::index_mut') and 'RangeFull' in (t['callee'].get('args') or ''):
         return 'indexing by `..` takes the whole sequence'
+    if kind in ('call:Index::index', 'call:IndexMut::index_mut') and len(t['args']) == 2:
+        # a constant range within a sequence of known length: `row[..5]` of a [f64; 6]
+        r = strip(body.op_term(t['args'][1], (bi, None)))
+        if isinstance(r, tuple) and r[0] == 'agg' and str(r[1]).split('::')[-1] in ('Range', 'RangeTo', 'RangeFrom', 'RangeToInclusive'):
+            knd = str(r[1]).split('::')[-1]
+            vals = [bounds.rng(x) for x in r[2:]]
+            base = strip(body.op_term(t['args'][0], (bi, None)))
+            ln = bounds.len_of(base)
+            if ln is None:
+                # the receiver may be a reference to an array local: look at the type of the argument local
+                o = t['args'][0]
+                if o.get('k') in ('copy', 'move'):
+                    n = array_len_of_type(body.local_ty(o['place']['local']).lstrip('&').replace('mut ', '', 1).strip())
+                    ln = (n, n) if n is not None else None
+            if ln is not None and all(v is not None for v in vals):
+                lo = vals[0][0] if knd in ('Range', 'RangeFrom') else 0
+                hi = (vals[-1][1] + (1 if knd == 'RangeToInclusive' else 0)) if knd != 'RangeFrom' else ln[0]
+                if 0 <= lo <= hi <= ln[0]:
+                    return 'range %d..%d within length %d' % (lo, hi, ln[0])
     if kind.startswith('assert:BoundsCheck'):
         c = strip(body.op_term(t['cond'], (bi, None)))
         if isinstance(c, tuple) and c[0] == 'bin' and c[1] == 'Lt':
